@@ -210,6 +210,16 @@ def gen_project(rng, n_modules, size, shape=None):
         others = [o for o in names if o != nm and rng.random() < 0.6]
         path = nm + ".py" if rng.random() < 0.7 or i == 0 else f"pkg/{nm}.py"
         files[path] = gen_module(rng, nm, others, size)
+    if rng.random() < 0.12 or shape == "unusual_files":
+        # unusual but legal source files
+        d = rng.choice(["", "pkg/"])
+        files[f"{d}crlf_mod.py"] = "import os\r\nCR = 1\r\ndef crlf(alpha):\r\n    beta = alpha\r\n    return beta\r\n"
+        files[f"{d}bom_mod.py"] = "\ufeffBOM = 1\ndef bom(alpha):\n    return alpha\n"
+        files[f"{d}empty_mod.py"] = ""
+        files[f"{d}nonl_mod.py"] = "NONL = 1\ndef nonl(alpha):\n    return alpha"
+        files[f"{d}unicode_mod.py"] = "gr\u00f6\u00dfe = 1\ndef \u540d\u524d(alpha, \u00e9t\u00e9=2):\n    \u03b4 = alpha\n    sink(\u03b4)\n    return \u03b4\n\u540d\u524d(gr\u00f6\u00dfe)\n"
+        files[f"{d}tabs_mod.py"] = "def tabs(alpha):\n\tif alpha:\n\t\treturn alpha\n\treturn None\n"
+        files[f"{d}long_mod.py"] = "LONG = [" + ", ".join(str(i) for i in range(400)) + "]\nvv1 = LONG\nunit_init = vv1\n"
     r = rng.random()
     if shape is not None:
         r = {"ambiguous_import": 0.1, "case_collision": 0.3, "dotted_import": 0.5}.get(shape, r)
